@@ -114,7 +114,7 @@ class LinearCommuting(nn.Module):
     def __init__(self, spec, batch):
         super().__init__()
         self.spec = spec
-        self.noise_type, self.sde_type = spec["noise_type"], spec["sde_type"]
+        self.noise_type, self.sde_type = "".join(list(spec["noise_type"])), "".join(list(spec["sde_type"]))
         d, m = spec["d"], spec["m"]
         gen = torch.Generator().manual_seed(spec["seed"])
         J = torch.randn(d, d, generator=gen, dtype=torch.float64)
@@ -165,7 +165,7 @@ class ScaledAdditive(nn.Module):
     def __init__(self, spec, batch):
         super().__init__()
         self.spec = spec
-        self.noise_type, self.sde_type = spec["noise_type"], spec["sde_type"]
+        self.noise_type, self.sde_type = "".join(list(spec["noise_type"])), "".join(list(spec["sde_type"]))
         d, m = spec["d"], spec["m"]
         gen = torch.Generator().manual_seed(spec["seed"])
         rows = batch if spec.get("per_row") else 1
@@ -258,7 +258,7 @@ class AdditiveNL(nn.Module):
     def __init__(self, spec, batch):
         super().__init__()
         self.spec = spec
-        self.noise_type, self.sde_type = spec["noise_type"], spec["sde_type"]
+        self.noise_type, self.sde_type = "".join(list(spec["noise_type"])), "".join(list(spec["sde_type"]))
         d, m = spec["d"], spec["m"]
         gen = torch.Generator().manual_seed(spec["seed"])
         self.k = nn.Parameter(torch.tensor(spec["k"][:d], dtype=torch.float64))
